@@ -39,6 +39,7 @@ type SimCfg struct {
 	QuantumNS  int64
 	FuncYield  bool
 	StmtYield  bool
+	BiasTag    string
 	MaxSteps   int64
 	Background bool // real Flusher + HintDumper loops run as tasks
 	DumperSecs int
@@ -185,7 +186,7 @@ func (c *SimCfg) apply(home string) {
 func (c *SimCfg) worldCfg(epoch int64) simrt.Config {
 	return simrt.Config{
 		Policy: c.Policy, PreemptDen: c.PreemptDen, PCTDepth: c.PCTDepth, PCTSteps: c.PCTSteps,
-		SpawnHold: c.SpawnHold, QuantumNS: c.QuantumNS, MaxSteps: c.MaxSteps, FuncYield: c.FuncYield, StmtYield: c.StmtYield,
+		SpawnHold: c.SpawnHold, QuantumNS: c.QuantumNS, MaxSteps: c.MaxSteps, FuncYield: c.FuncYield, StmtYield: c.StmtYield, BiasTag: c.BiasTag,
 		EpochUnix: epoch,
 	}
 }
